@@ -443,3 +443,26 @@ TASK.edges = {
     "pitchscale": {"apply": _scale_edges, "funcs": None, "keys": None},
     "octave": {"apply": _octave_edges, "funcs": None, "keys": CHROMA_KEYS},
 }
+
+
+# ---------------------------------------------------------------------------------- perturbed fixtures (C04)
+def fixture_states(tier):
+    """repository fixtures as C04 states: as is / every third estimate frame emptied / estimate time base shifted by
+    3 ms (forces resampling) / one estimated pitch per frame raised by 30 cents"""
+    import glob
+    refs = sorted(glob.glob(os.path.join(FIXTURE_DIR, "ref*.txt")))
+    out = []
+    for rp in (refs if tier == "thorough" else refs[:1]):
+        rt, rf = read_ragged(rp)
+        et, ef = read_ragged(rp.replace("ref", "est"))
+        n = 400 if tier == "thorough" else 150            # the head of the track keeps the model's cost bounded
+        rt, rf, et, ef = tuple(rt[:n]), tuple(rf[:n]), tuple(et[:n]), tuple(ef[:n])
+        out.append(((rt, rf), (et, ef)))
+        out.append(((rt, rf), (et, tuple(() if i % 3 == 2 else f for i, f in enumerate(ef)))))
+        out.append(((rt, rf), (tuple(t + 0.003 for t in et), ef)))
+        out.append(((rt, rf), (et, tuple(tuple(x * 2 ** (30 / 1200.0) if j == 0 else x for j, x in enumerate(f))
+                                         for f in ef))))
+    return out
+
+
+TASK.fixture_states = fixture_states
